@@ -274,3 +274,43 @@ Definition glyphs_to_items (gl : list (glyph num)) (indent : num) (align : Z) : 
 Definition total_size (l : list (litem num)) : nat := fold_right (fun it s => (lsize it + s)%nat) 0%nat l.
 
 End G2I.
+
+(** ==================================================================================================
+    Part 3: the glyph-range bookkeeping of the line loop of RichText.ToText (text.go, "build up lines":
+    ai/ag, bi/bg, eolSkip). Items are (type, Size); [rest] = items[ai:], a break is given by k = Position - ai
+    and by whether it is a soft hyphen that becomes a hyphen glyph. *)
+Definition bitem := (ity * nat)%type.
+Definition sizes (l : list bitem) : nat := fold_right (fun it s => (snd it + s)%nat) 0%nat l.
+Definition is_boxb (it : bitem) : bool := match fst it with TBox => true | _ => false end.
+Definition is_glueb (it : bitem) : bool := match fst it with TGlue => true | _ => false end.
+
+(** for ai < breaks[j].Position && items[ai].Type != BoxType { ag += items[ai].Size; ai++ } *)
+Fixpoint lead_nonbox (l : list bitem) : list bitem :=
+  match l with it :: t => if is_boxb it then [] else it :: lead_nonbox t | [] => [] end.
+(** for bi < len(items) && items[bi].Type == GlueType { ... } *)
+Fixpoint lead_glue (l : list bitem) : list bitem :=
+  match l with it :: t => if is_glueb it then it :: lead_glue t else [] | [] => [] end.
+(** eolSkip over items[ai:bi]: reset at every box *)
+Definition eol_skip (l : list bitem) : nat := fold_left (fun e it => if is_boxb it then 0%nat else (e + snd it)%nat) l 0%nat.
+
+(** glyphs [rA0,rA1) skipped at the line start, [rA1,rB1) in the spans of the line, [rB1,rB) dropped at its end *)
+Record lrange := mkLR { rA0 : nat; rA1 : nat; rB1 : nat; rB : nat }.
+
+Definition line_step (rest : list bitem) (hyph : bool) (ag k : nat) : lrange * list bitem * nat :=
+  let seg := firstn k rest in
+  let lead := lead_nonbox seg in
+  let ag1 := (ag + sizes lead)%nat in
+  let mid := skipn (length lead) seg in
+  let bsz := match nth_error rest k with Some it => snd it | None => 0%nat end in
+  let after := lead_glue (skipn (S k) rest) in
+  let bg := (ag1 + sizes mid + bsz + sizes after)%nat in
+  let eol := (eol_skip mid + (if hyph then 0 else bsz) + sizes after)%nat in
+  (mkLR ag ag1 (bg - eol) bg, skipn (S k + length after) rest, bg).
+
+Fixpoint lines_ranges (rest : list bitem) (brs : list (nat * bool)) (ag : nat) : list lrange * list bitem * nat :=
+  match brs with
+  | [] => ([], rest, ag)
+  | (k, h) :: r =>
+    let '(rg, rest', ag') := line_step rest h ag k in
+    let '(rgs, restf, agf) := lines_ranges rest' r ag' in (rg :: rgs, restf, agf)
+  end.
